@@ -4,5 +4,5 @@ cd "$(dirname "$0")/.."
 for d in seeded/*/; do
   id="$(basename "$d")"
   echo "=== $id"
-  tools/seeded_eval.sh "$d" "${id%%_*}" 2>&1 | grep -E "DEMO|passed|CHECK|PATCH" | cut -c1-260
+  tools/seeded_eval.sh "$d" "${id%%_*}" 2>&1 | grep -E "DEMO|passed|CHECK|PATCH" | cut -c1-200
 done
